@@ -90,6 +90,7 @@ type C10 struct {
 	base
 	g  gsys
 	sp *gtier.ShortPoints
+	holder *prover.Proof // the re-used decode target of the current run (history)
 	bd []bn254.G1Affine // curve points with x at the edges of the base field's range (gtier.BoundaryG1)
 }
 
@@ -198,6 +199,38 @@ func (c *C10) roundTrip(x *engine.Ctx, s *gtier.System, p groth16.Proof, hash *b
 	if (wrapErr == nil) != (origErr == nil) {
 		return engine.Violatef("C10/verdict-changes-after-roundtrip/"+shortTag, "%s proof: repository verifier says %v on the decoded proof, gnark said %v on the original", kind, wrapErr, origErr)
 	}
+	// history: one Proof value used over and over, as a long-lived caller (a relayer's receive buffer) would: this
+	// proof is decoded into the value that held the run's earlier proofs and was encoded before, and the value is
+	// encoded again - it must now be this proof, whatever it held or cached before
+	if c.holder == nil {
+		c.holder = new(prover.Proof)
+	}
+	if err := json.Unmarshal(enc, c.holder); err != nil {
+		return engine.Violatef("C10/roundtrip-fails/reused-decode-target", "%s proof %s: UnmarshalJSON into a value that held an earlier proof fails: %v", kind, string(enc), err)
+	}
+	got2, err := gtier.Coordinates(c.holder.Proof)
+	if err != nil {
+		return engine.Violatef("C10/roundtrip-fails/reused-decode-target", "%s proof: value decoded into holds no proof: %v", kind, err)
+	}
+	for i := range got2 {
+		if got2[i].Cmp(truth[i]) != 0 {
+			return engine.Violatef("C10/roundtrip-fails/reused-decode-target", "%s proof decoded into a value that held an earlier proof: coordinate %d is %s, original %s", kind, i, got2[i].Text(16), truth[i].Text(16))
+		}
+	}
+	enc2, err := json.Marshal(c.holder)
+	if err != nil {
+		return engine.Violatef("C10/encode-error/reused-value", "%s proof: MarshalJSON of a re-used value: %v", kind, err)
+	}
+	dec2, err := gtier.DecodeJSON(enc2)
+	if err != nil {
+		return engine.Violatef("C10/encoding-not-documented-json/reused-value", "%s proof: %v in %s", kind, err, string(enc2))
+	}
+	for i := range dec2 {
+		if dec2[i].Cmp(truth[i]) != 0 {
+			return engine.Violatef("C10/encoding-of-reused-value-is-not-the-proof-it-holds", "%s proof: a value that was encoded, then decoded into, encodes coordinate %d as %s; the proof it holds has %s", kind, i, dec2[i].Text(16), truth[i].Text(16))
+		}
+	}
+	x.S.Count("probe:reused_value_decode_then_encode")
 	x.Log.Addf("codec", "roundtrip", "%s short=%s ok valid=%v", kind, shortPattern(truth), origErr == nil)
 	if kind == "real" && origErr != nil {
 		return engine.Violatef("C10/real-proof-does-not-verify", "a proof returned by the prover does not verify for its own hash: %v", origErr)
@@ -215,6 +248,7 @@ func (c *C10) Run(x *engine.Ctx) *engine.Violation {
 	t := x.T
 	s := c.g.systems[0]
 	x.S.Touch("probe:proof_with_short_coordinate/real", "probe:proof_with_short_coordinate/forged")
+	c.holder = nil
 	if x.Run%5 == 4 {
 		return c.concurrentCallers(x) // World L: interleaved encoders/decoders, each on its own proofs
 	}
